@@ -8,6 +8,54 @@ W = 64  # bit-vector width standing for Python's unbounded int; every overflow i
 LIM = 1 << 62
 
 
+_THASH = {}
+_COMMUTATIVE = None
+
+
+def thash(term):
+    """Structural hash of a term that does not depend on the argument order of commutative
+    operators (z3's rewriter orders them by AST id, which depends on what else was built before:
+    the same condition met on a re-execution may come back as `b*a` instead of `a*b`)."""
+    global _COMMUTATIVE
+    if isinstance(term, _H):
+        return term.h
+    if _COMMUTATIVE is None:
+        _COMMUTATIVE = {z3.Z3_OP_BADD, z3.Z3_OP_BMUL, z3.Z3_OP_BAND, z3.Z3_OP_BOR, z3.Z3_OP_BXOR, z3.Z3_OP_AND, z3.Z3_OP_OR,
+                        z3.Z3_OP_EQ, z3.Z3_OP_DISTINCT, z3.Z3_OP_IFF, z3.Z3_OP_XOR}
+    stack = [term]
+    while stack:
+        t = stack[-1]
+        i = t.get_id()
+        if i in _THASH:
+            stack.pop()
+            continue
+        if not z3.is_app(t) or t.num_args() == 0:
+            _THASH[i] = (t, hash(("leaf", t.sexpr())))
+            stack.pop()
+            continue
+        kids = t.children()
+        missing = [c for c in kids if c.get_id() not in _THASH]
+        if missing:
+            stack.extend(missing)
+            continue
+        hs = [_THASH[c.get_id()][1] for c in kids]
+        d = t.decl()
+        k = d.kind()
+        if k in _COMMUTATIVE:
+            hs.sort()
+        try:
+            ps = tuple(str(x) for x in d.params())
+        except z3.Z3Exception:
+            ps = ()
+        _THASH[i] = (t, hash((k, d.name(), ps, tuple(hs), t.size() if z3.is_bv(t) else -1)))
+        stack.pop()
+    if len(_THASH) > 400000:
+        keep = _THASH[term.get_id()]
+        _THASH.clear()
+        _THASH[term.get_id()] = keep
+    return _THASH[term.get_id()][1]
+
+
 class Unmodelled(BaseException):
     """An operation on a shadow value that the engine does not model.
 
@@ -117,7 +165,8 @@ class Engine:
             s = z3.Solver()
             s.set("timeout", min(self.timeout_ms, 20000))
             s.add(*[abstract_mul(c, memo) for c in self.pc])
-            s.add(*[abstract_mul(c, memo) for c in extra])
+            # (rewritten first: masks `x & 0xFFFF` become extracts, which the narrowing rule needs)
+            s.add(*[abstract_mul(z3.simplify(c), memo) for c in extra])
             s.add(*memo.get("comm", []))
             t = time.time()
             self.queries += 1
@@ -181,7 +230,7 @@ class Engine:
     # ------------------------------------------------------------------ branching
     def _record(self, d, term):
         i = len(self.decisions)
-        h = term.hash()
+        h = thash(term)
         if i < len(self.prefix_hashes) and self.prefix_hashes[i] != h:
             raise EngineError("non-deterministic re-execution at decision %d" % i)
         self.decisions.append(d)
@@ -204,7 +253,7 @@ class Engine:
                     d = self.prefix[i]
                 else:
                     d = True
-                    self.worklist.append((self.decisions + [False], self.hashes + [term.hash()]))
+                    self.worklist.append((self.decisions + [False], self.hashes + [thash(term)]))
                 self._record(d, term)
                 self.domains[cid] = inter if d else (D - allowed)
                 c = term if d else z3.Not(term)
@@ -241,7 +290,7 @@ class Engine:
                 if r == z3.unknown:
                     raise EngineError("solver unknown at branch")
                 if r == z3.sat:
-                    self.worklist.append((self.decisions + [False], self.hashes + [term.hash()]))
+                    self.worklist.append((self.decisions + [False], self.hashes + [thash(term)]))
                     d = True
                     if not mv:
                         self.model = None
@@ -254,7 +303,7 @@ class Engine:
             if r == z3.sat:
                 other_model = self.solver.model()
                 d = True
-                self.worklist.append((self.decisions + [False], self.hashes + [term.hash()]))
+                self.worklist.append((self.decisions + [False], self.hashes + [thash(term)]))
                 if not mv:
                     self.model = other_model
             else:
@@ -294,7 +343,7 @@ class Engine:
             for v in vars_of(t):
                 self.tainted.add(v)
         none = z3.And(*[z3.Not(t) for t in terms]) if terms else z3.BoolVal(True)
-        h = (z3.Or(*terms) if terms else z3.BoolVal(False)).hash()
+        h = thash(z3.Or(*terms) if terms else z3.BoolVal(False))
         i = len(self.decisions)
 
         def cond(k):
@@ -415,6 +464,48 @@ def abstract_mul(term, memo=None):
     multiplication, so `unsat` for the abstracted query implies `unsat` for the real one."""
     memo = {} if memo is None else memo
 
+    def uf(w):
+        f = _MUL_UF.get(w)
+        if f is None:
+            f = _MUL_UF[w] = z3.Function("sx_mul_%d" % w, z3.BitVecSort(w), z3.BitVecSort(w), z3.BitVecSort(w))
+        return f
+
+    def factors(t):
+        """Factors of a product, nested products and negations flattened (-x = (-1) * x)."""
+        if z3.is_app(t):
+            k = t.decl().kind()
+            if k == z3.Z3_OP_BMUL:
+                out = []
+                for c in t.children():
+                    out += factors(c)
+                return out
+            if k == z3.Z3_OP_BNEG:
+                return [z3.BitVecVal(-1, t.size())] + factors(t.arg(0))
+        return [t]
+
+    def product(fs, w):
+        """c * f(f(x1, x2), x3) ... over the abstracted non-constant factors (id order)."""
+        c = 1
+        rest = []
+        for x in fs:
+            if z3.is_bv_value(x):
+                c = (c * x.as_long()) % (1 << w)
+            else:
+                rest.append(go(x))
+        rest.sort(key=lambda x: x.get_id())
+        if not rest:
+            return z3.BitVecVal(c, w)
+        r = rest[0]
+        if len(rest) >= 2:
+            f = uf(w)
+            for x in rest[1:]:
+                memo.setdefault("comm", []).append(f(r, x) == f(x, r))   # ground commutativity instance
+                r = f(r, x)
+        return r if c == 1 else z3.BitVecVal(c, w) * r
+
+    def nsym(fs):
+        return sum(0 if z3.is_bv_value(x) else 1 for x in fs)
+
     def go(t):
         i = t.get_id()
         hit = memo.get(i)
@@ -423,25 +514,19 @@ def abstract_mul(term, memo=None):
         if not z3.is_app(t) or t.num_args() == 0:
             r = t
         else:
-            kids = [go(c) for c in t.children()]
-            if t.decl().kind() == z3.Z3_OP_BMUL:
-                consts = [c for c in kids if z3.is_bv_value(c)]
-                rest = sorted((c for c in kids if not z3.is_bv_value(c)), key=lambda c: c.get_id())
-                if len(rest) >= 2:
-                    w = t.size()
-                    f = _MUL_UF.get(w)
-                    if f is None:
-                        f = _MUL_UF[w] = z3.Function("sx_mul_%d" % w, z3.BitVecSort(w), z3.BitVecSort(w), z3.BitVecSort(w))
-                    r = rest[0]
-                    for c in rest[1:]:
-                        memo.setdefault("comm", []).append(f(r, c) == f(c, r))   # ground commutativity instance
-                        r = f(r, c)
-                    for c in consts:
-                        r = c * r
-                else:
-                    r = t.decl()(*kids)
+            k = t.decl().kind()
+            if k == z3.Z3_OP_EXTRACT and t.params()[0] + 1 < t.arg(0).size() and nsym(factors(t.arg(0))) >= 2:
+                # bits h..l of a product depend only on bits h..0 of its factors: the product is taken
+                # at width h+1, so that two spellings that differ in the width chosen by the rewriter meet
+                h, l = t.params()
+                fs = []
+                for x in factors(t.arg(0)):
+                    fs += factors(z3.simplify(z3.Extract(h, 0, x)))
+                r = z3.Extract(h, l, product(fs, h + 1))
+            elif k in (z3.Z3_OP_BMUL, z3.Z3_OP_BNEG) and nsym(factors(t)) >= 2:
+                r = product(factors(t), t.size())
             else:
-                r = t.decl()(*kids)
+                r = t.decl()(*[go(c) for c in t.children()])
         memo[i] = (t, r)   # the original term is kept alive so that its id is not reused
         return r
 
@@ -880,11 +965,14 @@ class SInt:
         raise Unmodelled("int(SInt) via C")
 
     def bit_length(self):
+        return SBitLen(self)
+
+    def _bit_length_term(self):
         a = z3.If(self.t < 0, -self.t, self.t)
         r = z3.BitVecVal(0, W)
         for k in range(W - 1):
             r = z3.If(z3.UGE(a, z3.BitVecVal(1 << k, W)), z3.BitVecVal(k + 1, W), r)
-        return SInt(z3.simplify(r), 0, 64)
+        return z3.simplify(r)
 
     def to_bytes(self, length=1, byteorder="big", *, signed=False):
         from .values import mkbytes
@@ -916,6 +1004,83 @@ class SInt:
 
     def __str__(self):
         raise Unmodelled("str(SInt) via C")
+
+
+class SBitLen(SInt):
+    """x.bit_length(): comparisons with a constant k become range tests on x itself
+    (bit_length <= k  <=>  -2^k < x < 2^k); the 63-level If-chain is only built when the value
+    is used arithmetically."""
+
+    __slots__ = ("src", "_t")
+
+    def __init__(self, src):
+        self.src = src
+        self._t = None
+        self.lo, self.hi = 0, 64
+
+    @property
+    def t(self):
+        if self._t is None:
+            self._t = self.src._bit_length_term()
+        return self._t
+
+    @t.setter
+    def t(self, v):
+        self._t = v
+
+    def _le(self, k):
+        """Bool term / bool for bit_length <= k."""
+        if k < 0:
+            return False
+        if k >= W - 1:
+            return True
+        x = self.src.t
+        lo, hi = self.src.lo, self.src.hi
+        if lo is not None and -(1 << k) < lo and hi < (1 << k):
+            return True
+        if lo is not None and (lo >= (1 << k) or hi <= -(1 << k)):
+            return False
+        return z3.And(x > -(1 << k), x < (1 << k))
+
+    @staticmethod
+    def _wrap(v, neg=False):
+        if isinstance(v, bool):
+            return (not v) if neg else v
+        return sbool(z3.Not(v) if neg else v)
+
+    def _cmp(self, o, f, name):
+        if type(o) is int:
+            if name == "le":
+                return self._wrap(self._le(o))
+            if name == "lt":
+                return self._wrap(self._le(o - 1))
+            if name == "gt":
+                return self._wrap(self._le(o), neg=True)
+            if name == "ge":
+                return self._wrap(self._le(o - 1), neg=True)
+        return SInt._cmp(self, o, f, name)
+
+    def _eq_const(self, k):
+        a, b = self._le(k), self._le(k - 1)
+        if isinstance(a, bool) and isinstance(b, bool):
+            return a and not b
+        if a is False or b is True:
+            return False
+        ta = z3.BoolVal(True) if a is True else a
+        tb = z3.BoolVal(False) if b is False else b
+        return z3.And(ta, z3.Not(tb))
+
+    def __eq__(self, o):
+        if type(o) is int:
+            return self._wrap(self._eq_const(o))
+        return SInt.__eq__(self, o)
+
+    def __ne__(self, o):
+        if type(o) is int:
+            return self._wrap(self._eq_const(o), neg=True)
+        return SInt.__ne__(self, o)
+
+    __hash__ = SInt.__hash__
 
 
 class SRatio:
@@ -967,7 +1132,7 @@ def concretize(x, limit=64):
         raise Unmodelled("concretize: more than %d feasible values" % limit)
     m = e.get_model()  # PathAbort when no further value is feasible
     v = m.eval(x.t, model_completion=True).as_signed_long()
-    e.worklist.append((e.decisions + [("valx", excluded + [v])], e.hashes + [x.t.hash()]))
+    e.worklist.append((e.decisions + [("valx", excluded + [v])], e.hashes + [thash(x.t)]))
     e._record(("val", v), x.t)
     c = x.t == v
     e.solver.add(c)
